@@ -39,14 +39,48 @@ int sprintf(char *buf, const char *format, ...)
     return ret;
 }
 
+struct snprint_char_handler_data
+{
+    char *cursor;
+    size_t room; /* characters that still fit in front of the terminator */
+};
+
+static void snprint_printchar(void *d, int c)
+{
+    struct snprint_char_handler_data *data =
+        (struct snprint_char_handler_data *)d;
+
+    if (data->room)
+    {
+        *data->cursor++ = c;
+        --data->room;
+    }
+}
+
+/* at most n - 1 characters and the terminator are written (nothing if n is
+ * zero); the result is the length the whole output has */
+int vsnprintf(char *s, size_t n, const char *format, va_list ap)
+{
+    int ret;
+
+    struct snprint_char_handler_data data;
+    data.cursor = s;
+    data.room = n ? n - 1 : 0;
+
+    ret = __printf(snprint_printchar, &data, format, ap);
+    if (n)
+        *data.cursor = 0;
+
+    return ret;
+}
+
 int snprintf(char *buf, size_t maxlen, const char *format, ...)
 {
-    (void) maxlen; //TODO
     int ret;
     va_list args;
 
     va_start(args, format);
-    ret = vsprintf(buf, format, args);
+    ret = vsnprintf(buf, maxlen, format, args);
     va_end(args);
 
     return ret;
